@@ -16,8 +16,8 @@ static void vh_begin(void) {}
 static const char *vh_step(const vh_step_t *st, vh_sb *ret, vh_sb *state) { (void) st; (void) ret; (void) state; return NULL; }
 static void vh_end(void) {}
 
-#define MAXOBJ 256
-typedef struct { int null; unsigned char *k, *v; size_t kn, vn; char ktok[256], vtok[256]; } uobj_t;
+#define MAXOBJ 512
+typedef struct { int null; unsigned char *k, *v; size_t kn, vn; int slack; char ktok[256], vtok[256]; } uobj_t;
 static uobj_t U[MAXOBJ];
 static spif_obj_t O[MAXOBJ];
 static int NU;
@@ -32,9 +32,12 @@ static spif_list_t new_list(void) {
 }
 static spif_obj_t build(const uobj_t *u) {
     if (u->null) return (spif_obj_t) NULL;
-    if (!strcmp(cls, "str")) return SPIF_OBJ(spif_str_new_from_ptr((spif_charptr_t) u->v));
-    if (!strcmp(cls, "ustr")) return SPIF_OBJ(spif_ustr_new_from_ptr((spif_charptr_t) u->v));
-    if (!strcmp(cls, "mbuff")) return SPIF_OBJ(spif_mbuff_new_from_buff((spif_byteptr_t) u->v, (spif_memidx_t) u->vn, (spif_memidx_t) u->vn));
+    /* slack > 0: the same VALUE in a representation with spare capacity (the order must not depend on it) */
+    if (!strcmp(cls, "str")) return u->slack ? SPIF_OBJ(spif_str_new_from_buff((spif_charptr_t) u->v, (spif_stridx_t) (u->vn + 1 + u->slack)))
+                                             : SPIF_OBJ(spif_str_new_from_ptr((spif_charptr_t) u->v));
+    if (!strcmp(cls, "ustr")) return u->slack ? SPIF_OBJ(spif_ustr_new_from_buff((spif_charptr_t) u->v, (spif_ustridx_t) (u->vn + 1 + u->slack)))
+                                              : SPIF_OBJ(spif_ustr_new_from_ptr((spif_charptr_t) u->v));
+    if (!strcmp(cls, "mbuff")) return SPIF_OBJ(spif_mbuff_new_from_buff((spif_byteptr_t) u->v, (spif_memidx_t) u->vn, (spif_memidx_t) (u->vn + u->slack)));
     if (!strcmp(cls, "url")) return SPIF_OBJ(spif_url_new_from_ptr((spif_charptr_t) u->v));
     if (!strcmp(cls, "regexp")) return SPIF_OBJ(spif_regexp_new_from_ptr((spif_charptr_t) u->v));
     if (!strcmp(cls, "tok")) return SPIF_OBJ(spif_tok_new_from_ptr((spif_charptr_t) u->v));
@@ -127,7 +130,7 @@ static void emit_class(void) {
 }
 
 int main(int argc, char **argv) {
-    size_t len; char *buf, *p;
+    size_t len; char *buf, *p; int slk = 0;
     if (argc < 2) return 2;
     libast_set_program_name("cmp_table");
     setvbuf(stdout, NULL, _IOLBF, 0);
@@ -136,8 +139,9 @@ int main(int argc, char **argv) {
         char *nl = strchr(p, '\n'), a[64], b[300], c[300];
         if (nl) *nl = 0;
         if (sscanf(p, "class %63s %63s", cls, kind) == 2) { NU = 0; }
-        else if (sscanf(p, "obj %63s %299s %299s", a, b, c) == 3 && NU < MAXOBJ) {
+        else if (sscanf(p, "obj %63s %299s %299s %d", a, b, c, &slk) >= 3 && NU < MAXOBJ) {
             uobj_t *u = &U[NU++];
+            u->slack = slk; slk = 0;
             u->null = (a[0] == 'T');
             u->k = vh_bytes(b, &u->kn, 1); u->v = vh_bytes(c, &u->vn, 1);
             snprintf(u->ktok, sizeof(u->ktok), "%s", b); snprintf(u->vtok, sizeof(u->vtok), "%s", c);
